@@ -41,5 +41,10 @@ Definition w_event_head :=
   mk [s_user; scmd "broadcast" [("app", app_ty); ("items", T1 "Vec" (T0 "User"))] None [semit "items" (PVar (L "items"))]].
 Definition w_dup_listener :=
   mk [s_user; scmd "touch" [("app", app_ty); ("u", T0 "User")] None [semit "user-updated" (PVar (L "u")); semit "user_updated" (PVar (L "u"))]].
+(* the same event from two places, a name with characters that are not legal in identifiers *)
+Definition w_same_event_twice :=
+  mk [s_user; scmd "touch" [("app", app_ty); ("u", T0 "User")] None [semit "user:updated/now" (PVar (L "u")); semit "user:updated/now" (PVar (L "u"))]].
+Definition w_ipc_channel :=
+  mk [s_user; scmd "watch" [("on_ev", QPath [L "ipc"] (L "Channel") true [T0 "User"])] None []].
 Definition w_collision :=
   mk [sstruct "GetUserParams" [T0 "i32"]; scmd "get_user" [("id", T0 "i32"); ("p", T0 "GetUserParams")] None []].
